@@ -323,6 +323,32 @@ TrImportFresh ==
   /\ Step(FreshObs(Rec[l]))
   /\ UNCHANGED <<st, vals, ex>>
 
+(* import into a fresh manager that has `extra` further variables, placed
+   above the support variables ("a fresh manager with a compatible order"):
+   the same functions, not depending on the further variables.  Header and
+   order problems are judged by import_fresh. *)
+Lift(kind, n0, n1, S) ==
+  IF kind = "zbdd" THEN S ELSE {a \in Asg(n1) : (a % (2^n0)) \in S}
+LargerObs(r) ==
+  LET tg == ex.tag
+      c == IF Has(r, "res") THEN Cls(r) ELSE "none"
+      kind == st.kind
+  IN
+  IF r.hres.c # "ok" \/ kind = "mtbdd" THEN <<>>
+  ELSE IF c = "panic" THEN << O("C15", "import.nopanic:larger" \o tg \o ":" \o r.res.pc, FALSE) >>
+  ELSE IF c = "err" THEN << O("C15", "export.accepted_by_import:larger" \o tg \o ":" \o r.res.ec, FALSE) >>
+  ELSE IF c # "ok" THEN <<>>
+  ELSE
+  << O("C15", "roundtrip.larger" \o tg,
+        /\ r.n = st.n + r.extra /\ FreshGraphOk(r)
+        /\ GraphVals(kind, r) = [j \in 1 .. Len(ex.V) |-> Lift(kind, st.n, r.n, ex.V[j])]),
+     O("C15", "import.wellformed:larger" \o tg, SnapWellFormed(kind, r.n, r.snap) /\ RootsInSnap(r)),
+     O("C15", "import.noleak:larger" \o tg, r.after = r.base) >>
+TrImportLarger ==
+  /\ Ev("import_larger") /\ ex.valid
+  /\ Step(LargerObs(Rec[l]))
+  /\ UNCHANGED <<st, vals, ex>>
+
 ----------------------------------------------------------------------------
 (* mutated / truncated bytes *)
 BadObs(r) ==
@@ -358,7 +384,7 @@ TrImportBad ==
 ----------------------------------------------------------------------------
 TrInit == l = 1 /\ nf = 0 /\ fl = <<>> /\ st = St0 /\ vals = NoVals /\ ex = Ex0
 TrNext == TrReset \/ TrNoise \/ TrPre \/ TrExport \/ TrHeader \/ TrImportSame
-          \/ TrImportFresh \/ TrImportBad
+          \/ TrImportFresh \/ TrImportLarger \/ TrImportBad
 TrSpec == TrInit /\ [][TrNext]_tvars
 Done == PrintT(<<"TRACE_DONE", TLCGet("stats").diameter - 1, Len(Rec)>>)
 =============================================================================
